@@ -109,6 +109,20 @@ class Prop(PropBase):
         z = self._mk(case)
         arg, seen = self._shift_arg(case, z)
         out = {"seen": [X.rat(X.frac(float(v))) for v in np.atleast_1d(seen).ravel()]}
+        # a shift with as many (or more) axes as the signal cannot be broadcast over the sample shape: refused, for zero and
+        # non-zero values alike
+        rej = []
+        for extra in (0, 1):
+            for fill in (0.0, 1.5):
+                bad = np.full((1,) * (z.ndim + extra), fill)
+                try:
+                    pb.time_shift(z, bad)
+                    rej.append(f"shift of shape {bad.shape} (value {fill}) accepted for a {z.ndim}-dimensional signal")
+                except ValueError:
+                    pass
+                except Exception as e:      # noqa
+                    rej.append(f"shift of shape {bad.shape}: {err_name(e)}")
+        out["rejects"] = rej
         try:
             y0 = pb.time_shift(z, arg)
             y = pb.time_shift(z, arg, crop=True) if case["crop"] else y0
@@ -217,6 +231,7 @@ class Prop(PropBase):
     # ------------------------------------------------------------- property oracle
     def spec_violation(self, case, code):
         np = self.np
+        # (argument checks that the property does not state are observed in `rejects` for the evidence, not judged)
         if "err" in code:
             return f"raised {code['err']}"
         N = case["N"]
